@@ -88,7 +88,7 @@ G_SubFrames  == {<<>>, <<pA>>, <<pS, pAcc>>, <<pA, pAT>>, <<pA, pA>>, <<pT>>, <<
 G_Unsub      == {{}, {pA}, {pS, pT}}
 G_Topics     == {<<"a">>, <<"b">>, <<"a", "b">>, <<"acc", "A">>, <<"acc", "B">>, <<"a", "">>, <<"*">>, <<"acc">>}
 G_Member     == {<<"A", "X">>, <<"B", "X">>, <<"A", "Y">>}
-G_AllNode    == {"OpenStream", "RemoveStream", "OnStreamClose", "SubReject", "SubCheck", "Sub1", "Sub2", "Unsub1", "EvictMember",
+G_AllNode    == {"OpenStream", "RemoveStream", "OnStreamClose", "SubReject", "SubCheck", "Sub1", "Sub2", "Sub3", "Unsub1", "EvictMember",
                  "Revalidate", "CloseSpace", "AddMember", "RemoveMember", "Publish"}
 \* ---- exhaustive race generation: close || subscribe on one stream, a second stream holding the same pattern
 R_StreamAcct == <<"A", "B">>
@@ -97,13 +97,16 @@ R_SubFrames  == {<<>>, <<pA>>}
 R_Unsub      == {{}}
 R_Topics     == {<<"a">>}
 R_Member     == {<<"A", "X">>, <<"B", "X">>}
-R_Acts       == {"OpenStream", "RemoveStream", "OnStreamClose", "SubCheck", "Sub1", "Sub2", "Unsub1", "CloseSpace", "EvictMember", "RemoveMember"}
+R_Acts       == {"OpenStream", "RemoveStream", "OnStreamClose", "SubCheck", "Sub1", "Sub2", "Sub3", "Unsub1", "CloseSpace", "EvictMember", "RemoveMember"}
+\* close || subscribe of stream 2 while stream 1 holds the same pattern (prelude "holder"): the refcount of the pattern is shared
+Rh_Acts      == {"OpenStream", "RemoveStream", "OnStreamClose", "SubCheck", "Sub1", "Sub2", "Sub3"}
+Rh_SubFrames == {<<pA>>}
 R1_StreamAcct == <<"A">>
 R1_StreamPeer == <<"pA">>
-R1_Acts       == {"OpenStream", "RemoveStream", "OnStreamClose", "SubCheck", "Sub1", "Sub2", "Unsub1"}
+R1_Acts       == {"OpenStream", "RemoveStream", "OnStreamClose", "SubCheck", "Sub1", "Sub2", "Sub3", "Unsub1"}
 \* exhaustive generation around the membership check of a subscribe: removal / eviction / re-admission in between
-Rv_Acts       == {"OpenStream", "SubCheck", "Sub1", "Sub2", "RemoveMember", "AddMember", "EvictMember", "Revalidate"}
-Rvq_Acts      == {"OpenStream", "SubCheck", "Sub1", "Sub2", "RemoveMember", "EvictMember"}
+Rv_Acts       == {"OpenStream", "SubCheck", "Sub1", "Sub2", "Sub3", "RemoveMember", "AddMember", "EvictMember", "Revalidate"}
+Rvq_Acts      == {"OpenStream", "SubCheck", "Sub1", "Sub2", "Sub3", "RemoveMember", "EvictMember"}
 Rv_SubFrames  == {<<pA>>}
 G_DrawStreams == <<1, 1, 2, 2, 3, 3, 4>>
 G_DrawSpaces  == <<"X", "X", "X", "X", "Y", "Y", "Z", "bad/sp">>
